@@ -621,6 +621,23 @@ fn c11_matrix(sim: &mut Sim, rng: &mut Rng, idx: usize, out: &mut Vec<Violation>
             }
         }
     }
+    // the legacy migration is admitted while paused, but without legacy entries it must change
+    // nothing — in particular it must not lift the pause for an arbitrary sender
+    if c.obs.hub.as_ref().map(|h| h.legacy_wait_entries).unwrap_or(0) == 0 {
+        for s in &senders {
+            for limit in [None, Some(1u32)] {
+                let tx = raw("migrate", s, HUB, &basset::hub::ExecuteMsg::MigrateUnbondWaitList { limit }, vec![]).to_tx();
+                let (nw, _) = crate::wasm::run_tx(&c.w, &tx, None);
+                c.stats.check("c11_migrate_without_legacy_entries");
+                if let Some(nw) = nw {
+                    if nw.digest() != d0 {
+                        let still_paused = crate::wasm::query_json(&nw, HUB, &json!({"parameters": {}})).ok().and_then(|p| p.get("paused").and_then(|x| x.as_bool())).unwrap_or(false);
+                        viol(out, "C11", "migration_without_legacy_entries_changes_nothing", idx, if still_paused { "hub.migrate:changed_state" } else { "hub.migrate:unpaused_by_non_owner" }, format!("MigrateUnbondWaitList by {} on a paused hub without legacy entries changed the state (paused afterwards: {})", s, still_paused));
+                    }
+                }
+            }
+        }
+    }
     // update_params by a non-owner fails; by the owner succeeds (unless legacy entries remain)
     let owner = c.obs.hub.as_ref().map(|h| h.config.owner.clone()).unwrap_or_default();
     for s in &senders {
